@@ -52,8 +52,12 @@ class SingleFieldSubscriptionsRule(ValidationRule):
                 for definition in document.definitions
                 if isinstance(definition, FragmentDefinitionNode)
             }
-            grouped_field_set, _new_defer_usages, forbidden_directive_instances = (
-                collect_fields(
+            try:
+                (
+                    grouped_field_set,
+                    _new_defer_usages,
+                    forbidden_directive_instances,
+                ) = collect_fields(
                     schema,
                     fragments,
                     variable_values,
@@ -62,7 +66,10 @@ class SingleFieldSubscriptionsRule(ValidationRule):
                     self.context.hide_suggestions,
                     True,
                 )
-            )
+            except GraphQLError:
+                # Collecting the fields evaluates the arguments of @defer, which
+                # fails for invalid values; these are reported by other rules.
+                return
             if forbidden_directive_instances:
                 self.report_error(
                     GraphQLError(
